@@ -6,7 +6,9 @@
 From VBase Require Import MachInt.
 From VGen Require Import F64.
 From VModel Require Import ToyHash Coin.
-From VProofs Require Import F64Red F64Ops Coin CoinProps CoinToy.
+From VGen Require F62 F128.
+From VProofs Require F62Ops F128Limbs F128Ops.
+From VProofs Require Import F64Red F64Ops Coin CoinProps CoinToy CoinFields.
 Open Scope Z_scope.
 
 (* ---------------------------------------------------------------------------------------------- determinism *)
@@ -65,6 +67,25 @@ Theorem C19_draw_f64_internal_canonical : forall D merge_with_int dbytes deg (c 
   Forall (fun v => repr (f64_new v) /\ val (f64_new v) = v) e.
 Proof. exact draw_f64_internal_canonical. Qed.
 Print Assumptions C19_draw_f64_internal_canonical.
+
+(* f62: the stored word BaseElement::new(v) (generated model of math/src/field/f62) lies in the representation range
+   [0, 2M) and its as_int is the drawn value v *)
+Theorem C19_draw_f62_internal_word : forall D merge_with_int dbytes,
+  (forall d, Forall (fun b => 0 <= b < 256) (dbytes d)) ->
+  forall deg (c c' : coin D) e, coin_draw D merge_with_int dbytes (fk_f62 deg) c = (c', Ok e) ->
+  Forall (fun v => F62Ops.repr62 (F62.f62_new v) /\ F62.f62_as_int (F62.f62_new v) = v /\
+                   F62Ops.val62 (F62.f62_new v) = v) e.
+Proof. exact draw_f62_internal. Qed.
+Print Assumptions C19_draw_f62_internal_word.
+
+(* f128: the stored word is the drawn value itself (identity representation), canonical: v < M; new / try_from fix it *)
+Theorem C19_draw_f128_internal_word : forall D merge_with_int dbytes,
+  (forall d, Forall (fun b => 0 <= b < 256) (dbytes d)) ->
+  forall deg (c c' : coin D) e, coin_draw D merge_with_int dbytes (fk_f128 deg) c = (c', Ok e) ->
+  Forall (fun v => F128Ops.repr128 v /\ F128.f128_as_int v = v /\ F128.f128_new v = v /\
+                   F128.f128_try_from_u128 v = Some v) e.
+Proof. exact draw_f128_internal. Qed.
+Print Assumptions C19_draw_f128_internal_word.
 
 (* exact behaviour: draw returns the FIRST admissible counter-mode output hash(seed || counter+j), j <= 1000, and
    Err exactly when the next 1000 outputs are all inadmissible; it never panics for elements of at most 32 bytes *)
